@@ -501,14 +501,26 @@ func pureInstr(ins ssa.Instruction) bool {
 		_, _, ok2 := intInfo(v.X.Type())
 		return ok1 && ok2
 	case *ssa.UnOp:
-		if v.Op == token.MUL || v.Op == token.ARROW {
+		if v.Op == token.ARROW {
 			return false
+		}
+		if v.Op == token.MUL {
+			// load of a byte through an index address computed in the same block
+			ia, ok := v.X.(*ssa.IndexAddr)
+			return ok && ia.Block() == v.Block() && isByteType(v.Type())
 		}
 		_, _, ok := intInfo(v.Type())
 		return ok
 	case *ssa.ChangeType:
 		_, _, ok := intInfo(v.Type())
 		return ok
+	case *ssa.IndexAddr:
+		// byte cell of a slice / array; executed only if the index is concretely in range
+		pt, ok := v.Type().(*types.Pointer)
+		return ok && isByteType(pt.Elem())
+	case *ssa.Store:
+		ia, ok := v.Addr.(*ssa.IndexAddr)
+		return ok && ia.Block() == v.Block() && isByteType(v.Val.Type())
 	}
 	return false
 }
@@ -597,6 +609,15 @@ func (it *Interp) tryMerge(fr *frame, in *ssa.If, cond *Term) bool {
 	}
 	c := it.ctx
 	b := in.Block()
+	undoMark := len(it.undo)
+	fail := func() bool {
+		// roll back guarded stores made while evaluating the region
+		for i := len(it.undo) - 1; i >= undoMark; i-- {
+			it.undo[i]()
+		}
+		it.undo = it.undo[:undoMark]
+		return false
+	}
 	incoming := map[*ssa.BasicBlock][]edgeIn{}
 	add := func(from, to *ssa.BasicBlock, g *Term) {
 		if g.IsFalse() {
@@ -660,7 +681,7 @@ func (it *Interp) tryMerge(fr *frame, in *ssa.If, cond *Term) bool {
 			}
 			v, ok := phiVal(p, ins)
 			if !ok {
-				return false
+				return fail()
 			}
 			pv = append(pv, v)
 			ps = append(ps, p)
@@ -675,13 +696,39 @@ func (it *Interp) tryMerge(fr *frame, in *ssa.If, cond *Term) bool {
 			case *ssa.Convert:
 				fr.env[v] = it.canon(it.conv(v.Type(), v.X.Type(), it.get(fr, v.X)))
 			case *ssa.UnOp:
-				fr.env[v] = it.unop(fr, v)
+				if v.Op == token.MUL {
+					bp, ok := it.get(fr, v.X).(BytePtr)
+					if !ok {
+						return fail()
+					}
+					fr.env[v] = it.objAt(bp.Obj, bp.Idx)
+				} else {
+					fr.env[v] = it.unop(fr, v)
+				}
 			case *ssa.ChangeType:
 				fr.env[v] = it.get(fr, v.X)
+			case *ssa.IndexAddr:
+				bp, ok := it.safeByteAddr(fr, v)
+				if !ok {
+					return fail()
+				}
+				fr.env[v] = bp
+			case *ssa.Store:
+				bp, ok := it.get(fr, v.Addr).(BytePtr)
+				val, ok2 := it.get(fr, v.Val).(*Term)
+				if !ok || !ok2 || bp.Obj.ro {
+					return fail()
+				}
+				old := it.objAt(bp.Obj, bp.Idx)
+				nv := c.Ite(gx, val, old)
+				if it.cfg.canon8 {
+					nv = c.Canon8(nv)
+				}
+				it.objStore(bp.Obj, bp.Idx, nv)
 			case *ssa.If:
 				cv, ok := it.get(fr, v.Cond).(*Term)
 				if !ok {
-					return false
+					return fail()
 				}
 				add(x, x.Succs[0], c.And(gx, cv))
 				add(x, x.Succs[1], c.And(gx, c.Not(cv)))
@@ -742,14 +789,17 @@ func (it *Interp) tryMerge(fr *frame, in *ssa.If, cond *Term) bool {
 					var ok2 bool
 					v, ok2 = phiVal(p, ins)
 					if !ok2 {
-						return false
+						return fail()
 					}
 				}
 			}
 			if it.cfg.canon8 {
 				// values on inputs that cannot reach this block are don't-cares: normalise them to 0
-				if tv, ok := v.(*Term); ok && tv.w > 0 && tv.w <= 64 {
-					v = c.Canon8(c.Ite(e.guard, tv, c.BV(0, tv.w)))
+				if tv, ok := v.(*Term); ok && tv.w > 0 && tv.w <= 64 && !tv.IsConst() {
+					cand := c.Ite(e.guard, tv, c.BV(0, tv.w))
+					if r := c.Canon8(cand); r != cand {
+						v = r
+					}
 				}
 			}
 			e.phis = append(e.phis, p)
@@ -758,7 +808,7 @@ func (it *Interp) tryMerge(fr *frame, in *ssa.If, cond *Term) bool {
 		entries = append(entries, e)
 	}
 	if len(entries) == 0 {
-		return false
+		return fail()
 	}
 	it.nMerged++
 	for i, e := range entries {
@@ -776,7 +826,32 @@ func (it *Interp) tryMerge(fr *frame, in *ssa.If, cond *Term) bool {
 		}
 		return true
 	}
-	return false
+	return fail()
+}
+
+// safeByteAddr: address of a byte cell if the index is concrete and in range (no panic possible).
+func (it *Interp) safeByteAddr(fr *frame, in *ssa.IndexAddr) (BytePtr, bool) {
+	c := it.ctx
+	idx, ok := it.get(fr, in.Index).(*Term)
+	if !ok {
+		return BytePtr{}, false
+	}
+	idx = c.SExt(idx, 64)
+	switch v := it.get(fr, in.X).(type) {
+	case Bytes:
+		if v.Obj == nil || !c.Bin(OpUlt, idx, v.Len).IsTrue() {
+			return BytePtr{}, false
+		}
+		return BytePtr{Obj: v.Obj, Idx: c.Bin(OpAdd, v.Off, idx)}, true
+	case Ptr:
+		if v.P == nil {
+			return BytePtr{}, false
+		}
+		if a, ok := (*v.P).(*ByteObj); ok && c.Bin(OpUlt, idx, a.capT).IsTrue() {
+			return BytePtr{Obj: a, Idx: idx}, true
+		}
+	}
+	return BytePtr{}, false
 }
 
 func (it *Interp) canon(v Value) Value {
